@@ -154,6 +154,76 @@ func ruleTreeAlias(c *Ctx) {
 func ruleAdjacentPairs(c *Ctx) {
 	c.P.funcDecls(func(pk *packages.Package, fd *ast.FuncDecl) {
 		info := pk.TypesInfo
+		if fd.Body == nil {
+			return
+		}
+		// the same scan written as a range over the tail: for i, v := range s[k:] { … v ~ s[i+c] … }: v is s[i+k]
+		ast.Inspect(fd.Body, func(n ast.Node) bool {
+			rs, ok := n.(*ast.RangeStmt)
+			if !ok || rs.Key == nil || rs.Value == nil {
+				return true
+			}
+			se, ok := ast.Unparen(rs.X).(*ast.SliceExpr)
+			if !ok || se.High != nil || se.Low == nil {
+				return true
+			}
+			if _, isSlice := info.TypeOf(se.X).Underlying().(*types.Slice); !isSlice {
+				return true
+			}
+			k, ok := constantInt(info.Types[se.Low])
+			kid, ok1 := rs.Key.(*ast.Ident)
+			vid, ok2 := rs.Value.(*ast.Ident)
+			if !ok || !ok1 || !ok2 {
+				return true
+			}
+			kobj, vobj := info.Defs[kid], info.Defs[vid]
+			slice := types.ExprString(se.X)
+			found := false
+			var cOff int64
+			ast.Inspect(rs.Body, func(m ast.Node) bool {
+				be, ok := m.(*ast.BinaryExpr)
+				if !ok || found {
+					return true
+				}
+				switch be.Op {
+				case token.EQL, token.NEQ, token.LSS, token.LEQ, token.GTR, token.GEQ:
+				default:
+					return true
+				}
+				for _, pair := range [][2]ast.Expr{{be.X, be.Y}, {be.Y, be.X}} {
+					id, ok := ast.Unparen(pair[0]).(*ast.Ident)
+					if !ok || info.Uses[id] != vobj {
+						continue
+					}
+					ix, ok := ast.Unparen(pair[1]).(*ast.IndexExpr)
+					if !ok || types.ExprString(ix.X) != slice {
+						continue
+					}
+					if p, ok := exprPoly(info, ix.Index, nil, nil, 0); ok && p[kid.Name] == 1 && len(p) <= 2 {
+						cOff, found = p[""], true
+					}
+				}
+				return true
+			})
+			_ = kobj
+			if !found || (k-cOff != 1 && cOff-k != 1) {
+				return true
+			}
+			key := pkgShort(pk.Types) + "." + funcName(fd) + ":" + slice
+			lo := k
+			if cOff < lo {
+				lo = cOff
+			}
+			switch {
+			case lo != 0:
+				c.bad(key, rs.Pos(), "neighbour scan over %s compares [i%+d] with [i%+d] starting at i = 0: the pair (0,1) is never compared", slice, cOff, k)
+			case cOff > k:
+				c.bad(key, rs.Pos(), "neighbour scan over %s ranges the lower element and indexes the upper one: the last round reads one past the end", slice)
+			default:
+				c.ok(key, rs.Pos(), "every adjacent pair of %s is compared (range over the tail, the predecessor by index)", slice)
+			}
+			return true
+		})
 		ast.Inspect(fd.Body, func(n ast.Node) bool {
 			fs, ok := n.(*ast.ForStmt)
 			if !ok || fs.Init == nil || fs.Cond == nil {
@@ -570,13 +640,61 @@ func ruleScoreFlow(c *Ctx) {
 		}
 		key := "ApplyScoreChanges." + name + ".backwards"
 		okDir := false
-		if inc, ok := fs.Post.(*ast.IncDecStmt); ok && inc.Tok == token.DEC {
-			// starts at len(<nodes>) - 1, in any spelling (possibly through a local)
-			if init, ok := fs.Init.(*ast.AssignStmt); ok && len(init.Rhs) == 1 {
-				if p, ok := exprPoly(info, init.Rhs[0], singleDefs(info, fd.Body), nil, 0); ok && p[""] == -1 && len(p) == 2 {
-					for a, cf := range p {
-						if a != "" && cf == 1 && strings.HasPrefix(a, "len(") {
-							okDir = true
+		descending := false
+		switch post := fs.Post.(type) {
+		case *ast.IncDecStmt:
+			descending = post.Tok == token.DEC
+		case *ast.AssignStmt:
+			if post.Tok == token.SUB_ASSIGN && len(post.Rhs) == 1 {
+				if tv, ok := info.Types[post.Rhs[0]]; ok && tv.Value != nil && tv.Value.ExactString() == "1" {
+					descending = true
+				}
+			}
+		}
+		if init, ok := fs.Init.(*ast.AssignStmt); ok && descending && len(init.Lhs) == 1 && len(init.Rhs) == 1 {
+			// the first position visited is len(<nodes>) - 1, in any spelling: the counter starts there and indexes as it
+			// is, or starts at len and indexes with i-1 (the counter's start put into the index expressions of the body)
+			if iv, ok := init.Lhs[0].(*ast.Ident); ok {
+				ldefs := singleDefs(info, fd.Body)
+				if q, ok := exprPoly(info, init.Rhs[0], ldefs, nil, 0); ok {
+					stop := map[string]bool{iv.Name: true}
+					nIdx, good := 0, true
+					ast.Inspect(fs.Body, func(k ast.Node) bool {
+						ix, ok := k.(*ast.IndexExpr)
+						if !ok {
+							return true
+						}
+						if _, isSlice := info.TypeOf(ix.X).Underlying().(*types.Slice); !isSlice {
+							return true
+						}
+						p, ok := exprPoly(info, ix.Index, ldefs, stop, 0)
+						if !ok {
+							return true
+						}
+						if _, uses := p[iv.Name]; !uses || p[iv.Name] != 1 {
+							return true
+						}
+						nIdx++
+						first := polyAdd(polyAdd(p, polyAtom(iv.Name), -1), q, 1)
+						if first[""] != -1 || len(first) != 2 {
+							good = false
+							return true
+						}
+						for a, cf := range first {
+							if a != "" && (cf != 1 || !strings.HasPrefix(a, "len(")) {
+								good = false
+							}
+						}
+						return true
+					})
+					if nIdx > 0 && good {
+						okDir = true
+					}
+					if nIdx == 0 && q[""] == -1 && len(q) == 2 {
+						for a, cf := range q {
+							if a != "" && cf == 1 && strings.HasPrefix(a, "len(") {
+								okDir = true
+							}
 						}
 					}
 				}
@@ -712,29 +830,55 @@ func ruleUpdateGuard(c *Ctx) {
 				}
 				pairs[types.ExprString(as.Lhs[0])] = types.ExprString(as.Rhs[0])
 			}
-			// condition: leaves (under any mix of && / ||) are all `a != b` over exactly the assigned pairs
-			var leaves []ast.Expr
-			var collect func(e ast.Expr)
-			collect = func(e ast.Expr) {
+			// condition in negation normal form (so !(a == x && b == y) is a != x || b != y): leaves under any mix of
+			// && / || are all `a != b` over exactly the assigned pairs
+			type leaf struct {
+				x, y ast.Expr
+				op   token.Token
+			}
+			var leaves []leaf
+			hasAnd := false
+			okCond := true
+			var collect func(e ast.Expr, neg bool)
+			collect = func(e ast.Expr, neg bool) {
 				e = ast.Unparen(e)
-				if be, ok := e.(*ast.BinaryExpr); ok && (be.Op == token.LAND || be.Op == token.LOR) {
-					collect(be.X)
-					collect(be.Y)
+				if u, ok := e.(*ast.UnaryExpr); ok && u.Op == token.NOT {
+					collect(u.X, !neg)
 					return
 				}
-				leaves = append(leaves, e)
+				be, ok := e.(*ast.BinaryExpr)
+				if !ok {
+					okCond = false
+					return
+				}
+				if be.Op == token.LAND || be.Op == token.LOR {
+					if (be.Op == token.LAND) != neg {
+						hasAnd = true
+					}
+					collect(be.X, neg)
+					collect(be.Y, neg)
+					return
+				}
+				op := be.Op
+				if neg {
+					var known bool
+					if op, known = negOp[op]; !known {
+						okCond = false
+						return
+					}
+				}
+				leaves = append(leaves, leaf{be.X, be.Y, op})
 			}
-			collect(is.Cond)
-			if len(leaves) < 2 || len(leaves) != len(pairs) {
+			collect(is.Cond, false)
+			if !okCond || len(leaves) < 2 || len(leaves) != len(pairs) {
 				return true
 			}
 			seen := map[string]bool{}
 			for _, l := range leaves {
-				be, ok := l.(*ast.BinaryExpr)
-				if !ok || be.Op != token.NEQ {
+				if l.op != token.NEQ {
 					return true
 				}
-				a, b := types.ExprString(be.X), types.ExprString(be.Y)
+				a, b := types.ExprString(l.x), types.ExprString(l.y)
 				switch {
 				case pairs[a] == b:
 					seen[a] = true
@@ -752,7 +896,7 @@ func ruleUpdateGuard(c *Ctx) {
 				key += ":" + k
 				break
 			}
-			if len(flattenBool(is.Cond, token.LOR)) == len(leaves) {
+			if !hasAnd {
 				c.ok(key, is.Pos(), "refresh of %d values guarded by the disjunction of their inequalities", len(pairs))
 			} else {
 				c.bad(key, is.Pos(), "%s refreshes %d cached values only when `%s`: with a conjunction, a change of just one of them leaves it stale", fname, len(pairs), types.ExprString(is.Cond))
@@ -805,29 +949,47 @@ func ruleRotateOrder(c *Ctx) {
 			var runStart token.Pos
 			for _, st := range blk.List {
 				as, ok := st.(*ast.AssignStmt)
-				if !ok || as.Tok != token.ASSIGN || len(as.Lhs) != 1 || len(as.Rhs) != 1 {
+				if !ok || as.Tok != token.ASSIGN || len(as.Lhs) != len(as.Rhs) {
 					flush(runStart)
 					continue
 				}
-				lf, okL := fieldOf(as.Lhs[0])
-				if !okL {
+				// a, b = x, y reads x and y before it writes a and b: all right-hand sides of one statement are judged
+				// against what earlier statements wrote, then its left-hand sides count as written
+				allFields := true
+				for _, l := range as.Lhs {
+					if _, okL := fieldOf(l); !okL {
+						allFields = false
+					}
+				}
+				if !allFields {
 					flush(runStart)
 					continue
 				}
 				if rot == 0 && len(written) == 0 {
 					runStart = as.Pos()
 				}
-				if rf, okR := fieldOf(as.Rhs[0]); okR {
-					if _, w := written[rf]; w {
-						nrun++
-						c.bad(fmt.Sprintf("%s@rotation%d", fname, nrun), as.Pos(), "%s: `%s = %s` reads %s after it was overwritten two statements earlier in the same rotation: %s and %s now share one buffer and the previous content of %s is lost", fname, lf, rf, rf, lf, rf, rf)
-						written = map[string]token.Pos{}
-						rot = 0
-						continue
+				bad := false
+				for i := range as.Lhs {
+					lf, _ := fieldOf(as.Lhs[i])
+					if rf, okR := fieldOf(as.Rhs[i]); okR {
+						if _, w := written[rf]; w {
+							nrun++
+							c.bad(fmt.Sprintf("%s@rotation%d", fname, nrun), as.Pos(), "%s: `%s = %s` reads %s after it was overwritten two statements earlier in the same rotation: %s and %s now share one buffer and the previous content of %s is lost", fname, lf, rf, rf, lf, rf, rf)
+							bad = true
+							break
+						}
+						rot++
 					}
-					rot++
 				}
-				written[lf] = as.Pos()
+				if bad {
+					written = map[string]token.Pos{}
+					rot = 0
+					continue
+				}
+				for _, l := range as.Lhs {
+					lf, _ := fieldOf(l)
+					written[lf] = as.Pos()
+				}
 			}
 			flush(runStart)
 			return true
